@@ -99,7 +99,14 @@ var urlAtoms = []string{" ", "%", "/", "?", "#", "&", "=", "+", "@", ";", ",", "
 
 func drawURLString(t *rapid.T, label string, allowColon bool) string {
 	var s string
-	switch rapid.IntRange(0, 5).Draw(t, label+"K") {
+	switch rapid.IntRange(0, 15).Draw(t, label+"K") {
+	case 15: // long
+		n := rapid.IntRange(20, 120).Draw(t, label+"LN")
+		var sb strings.Builder
+		for i := 0; i < n; i++ {
+			sb.WriteString(rapid.SampledFrom(urlAtoms).Draw(t, label+"LA"))
+		}
+		s = sb.String()
 	case 0:
 		s = rapid.SampledFrom([]string{"My Company", "Example", "alice@example.com", "100% Co", "a/b", "/lead", "..", ".", "x?y", "q#frag", "a&b=c", "Jürgen", "%41", "%", "+1", " ", "a b "}).Draw(t, label+"F")
 	case 1:
